@@ -385,4 +385,11 @@ def wfb (cfg : Cfg) : Bool :=
   (List.range cfg.n).all (fun k => (List.range k).all (fun i =>
     decide (cfg.job k = cfg.job i → cfg.job (i + 1) = cfg.job i)))
 
+/-- decidable layout condition (see `Layout` in Lemmas/WriterNFiles.lean) -/
+def layoutb (cfg : Cfg) : Bool :=
+  (List.range cfg.n).all (fun i => decide (cfg.file i < cfg.files.length)) &&
+  (List.range cfg.n).all (fun i => (List.range cfg.n).all (fun j =>
+    decide (i ≠ j → cfg.file i = cfg.file j →
+      cfg.off i + (cfg.data i).length ≤ cfg.off j ∨ cfg.off j + (cfg.data j).length ≤ cfg.off i)))
+
 end IrVerif.WriterN
